@@ -331,3 +331,7 @@ META = dict(
 # Psd objects (what rpsd returns per component): validation and constructor
 import contracts.ctor_hvsr as _CTOR
 TASKS += _CTOR.PSD_TASKS
+
+# instrument_response.py (differentiation and response removal of psd_preprocess): FFT-length and sample routing
+import contracts.instr as _INSTR
+TASKS += _INSTR.TASKS
